@@ -90,6 +90,32 @@ PROPS.update({
     "C07": _bounded("C07", "c07", "check / valid_content / create_checked / can_replace (all index ranges and replacement sub-ranges) / can_replace_with / can_append against validity computed from the schema spec strings."),
     "C15": _bounded("C15", "c15", "fill_before / create_and_fill / find_wrapping on every reachable match state of 11 schemas against BFS oracles over independent automata (soundness, completeness, shortest chain, cache consistency). fill_before and compute_wrapping are a recursive closure with shared `seen` and a BFS over dict records: outside the verifiable subset."),
     "C19": _bounded("C19", "c19", "HTML fragments from a grammar + fixed edge cases: parse terminates and is oracle-valid; serialisation succeeds and escapes; whitespace-normal documents round-trip; context rules vs an oracle matcher. lxml, CSS selectors and regular expressions are outside any contract the verifier can discharge."),
+    "C10": dict(
+        sidecars=[],
+        frames=True,
+        driver="c10",
+        level="other",
+        min_obligations=150,
+        assumptions=["PYVC"],
+        extra_assumptions=[
+            "frame discipline is intraprocedural and flow-insensitive: a local counts as fresh when every assignment to it is a fresh allocation; aliasing through containers is not tracked",
+            "user callbacks do not mutate; no setattr/__dict__ (scanned every run)",
+            "from_dom.py / to_dom.py working state (parser contexts, parse rules, the caller's lxml tree) is outside the frame analysis; their effect on documents is covered by the bounded driver only",
+            "Mapping.slice deliberately shares the maps list with the original (documented accumulator semantics)",
+            "the allow-list of modifiable locations (Transform, Mapping, Fitter, TokenStream, schema construction, NFA/DFA builders, wrap_cache) is in pyvc/frames.py",
+        ],
+        level_text=(
+            "Hybrid. Deductive (ownership / frame obligations, all paths, all inputs): every heap write site in model/ (without the DOM "
+            "modules) and transform/ -- attribute stores, subscript stores, mutating method calls -- is shown to target a freshly allocated "
+            "object, the object under construction or a declared accumulator; to_json never hands out live attribute objects; "
+            "Mapping.copy captures fresh lists. Bounded: canonical dumps of every live document, slice, mark list, step and map and of "
+            "the shared singletons before and after batches of every kind of library operation."
+        ),
+        level_note="Trusted: the frame analysis (AST-level, assumptions listed in evidence), CPython; the bounded snapshot driver for everything the analysis excludes.",
+        technique="frame / ownership obligations per write site (contract-style modifies clauses checked on the real AST) + bounded snapshot check",
+        explanation="One obligation per write site of the library source (re-read every run); a write to anything but a fresh object, the object under construction or a declared modifiable location fails its obligation. The bounded driver re-dumps all live values after operation batches.",
+        bounded_only=["DOM conversion working state", "aliasing through containers"],
+    ),
     "C16": _bounded("C16", "c16", "ordered step pairs biased to adjacency: merged step vs the two steps."),
     "C17": _bounded("C17", "c17", "pairs of steps with separated touched ranges: rebase both ways, both orders equal."),
     "C18": _bounded("C18", "c18", "every range inside every isolating node x replace-family operations: tokens outside the node unchanged; lift_target / can_split do not cross."),
